@@ -98,6 +98,15 @@ theorem inv_with_det (m : Mat4) :
     m.invWithDet.2 = (toMatrix m).det :=
   ⟨invWithDet_mul_right m, invWithDet_mul_left m, invWithDet_det m⟩
 
+/-- **`ibz_mat_4x4_gcd` is the gcd of ALL 16 entries** of an arbitrary (not necessarily triangular) matrix: it is
+    non-negative, divides every entry, and every common divisor of the sixteen entries divides it.  (A scan restricted
+    to part of the matrix — e.g. the upper triangle "because bases are HNF" — fails the second clause on the
+    non-triangular bases that `quat_lattice_reduce_denom` receives from `quat_lideal_create_principal`.) -/
+theorem mat_gcd_exact (m : Mat4) :
+    0 ≤ m.gcd ∧ (∀ r c, r < 4 → c < 4 → m.gcd ∣ m.get r c) ∧
+    (∀ z : ℤ, (∀ r c, r < 4 → c < 4 → z ∣ m.get r c) → z ∣ m.gcd) :=
+  ⟨mat_gcd_nonneg m, fun r c hr hc => mat_get_dvd m r c hr hc, fun z h => dvd_mat_gcd m z h⟩
+
 /-- the model of `mpz_gcdext` returns a positive gcd with Bezout cofactors -/
 theorem xgcd_bezout : XgcdSpec xgcdGmp := SqiProofs.Xgcd.xgcdGmp_spec
 
@@ -129,6 +138,8 @@ theorem hnf_mod_exact (m : Mat4) (md : ℤ) (hmd : md ≠ 0) :
 
 /-! ## lattice.c -/
 
+/-- `quat_lattice_reduce_denom` keeps the rational lattice for EVERY integer basis — no HNF / triangularity / rank
+    hypothesis: it is also applied to the full matrix mulmat(x)·O in `quat_lideal_create_principal` -/
 theorem lattice_reduce_denom_exact (l : Lattice) (hd : l.denom ≠ 0) :
     ratLat (latReduceDenom l) = ratLat l ∧ (latReduceDenom l).denom ≠ 0 := latReduceDenom_spec l hd
 
@@ -218,6 +229,11 @@ example : FullRank (spanL O0.basis.cols) := by
 example : (⟨-3, ⟨1, -2, 5, 7⟩⟩ : Elem).denom ≠ 0 := by decide
 
 example : Reduced O0 := by unfold Reduced; decide
+
+/-- a non-triangular basis whose upper triangle is divisible by 7 while the whole matrix has content 1: mulmat(x) for
+    x = (7 + 14i + j + 2ij)/7 in the algebra with p = 7 (the basis `quat_lideal_create_principal` reduces before the HNF) -/
+example : (rightMulMat 7 ⟨7, ⟨7, 14, 1, 2⟩⟩).gcd = 1 ∧
+    latReduceDenom ⟨7, rightMulMat 7 ⟨7, ⟨7, 14, 1, 2⟩⟩⟩ = ⟨7, rightMulMat 7 ⟨7, ⟨7, 14, 1, 2⟩⟩⟩ := by decide
 
 /-- a rank-deficient input really produces a zero diagonal entry (so the hypothesis of `hnf_is_hnf` matters) -/
 example : (hnfCore [⟨1, 0, 0, 0⟩, ⟨2, 0, 0, 0⟩, ⟨0, 1, 0, 0⟩, ⟨0, 0, 1, 0⟩]).get 0 0 = 0 := by decide
